@@ -34,6 +34,22 @@ UNITS = {
 }
 
 PROPS = {
+    'C15': {
+        'units': ['builder', 'registry', 'encode', 'bytesio'],
+        'kani': [],
+        'scans': ['determinism'],
+        'own': {'builder': r'MapBuilder|SetBuilder|Builder::(new|new_type|finish|into_inner|bytes_written|get_ref|insert|add)$', 'registry': r'Registry::hash|Registry::entry'},
+        'level_text': 'Proof of delegation: MapBuilder::{new, insert, finish, into_inner, get_ref, bytes_written}, SetBuilder::{...} and '
+                      'Builder::{new, finish} are verified to be exactly the raw-builder calls (same result, same state), so the raw, map and '
+                      'set builders are one code path; every emitting function appends a byte string that is a spec function of builder '
+                      'state and arguments. Determinism: verified executable functions are functions of their inputs unless an external '
+                      'callee is not; a token scan of the builder-side sources for RandomState / HashMap / thread_local / static mut / clock / '
+                      'env / pointer casts is reported as a checked frame condition (not a proof).',
+        'level_note': 'from_iter / extend_iter / extend_stream loops not decided; "across processes and threads" not applicable (no thread '
+                      'or process model); Builder::memory()/into_fst (unwrap of an infallible Vec sink) not under contract.',
+        'explanation': '',
+        'assumptions': ['determinism scan is syntactic', 'iterator front ends not decided', 'processes / threads: not applicable'],
+    },
     'C01': {
         'units': ['builder', 'encode', 'layout', 'decode', 'registry', 'bytesio', 'cw', 'stream', 'open'],
         'kani': [],
@@ -220,6 +236,7 @@ PROPS = {
     'C20': {
         'units': ['open', 'crc'],
         'kani': [],
+        'scans': ['unsafe'],
         'level_text': 'Proof of totality: Verus discharges every slice-index, arithmetic and unwrap obligation of Fst::new for all byte '
                       'strings of all lengths, and of len/is_empty/size/fst_type/as_bytes/to_vec/verify on every value satisfying '
                       'the invariant new establishes; CheckSummer::update (slice-by-16 CRC) is total for every slice.',
